@@ -34,6 +34,30 @@ CLAIMS = {
             "is executed on the real splice/append; TLC validates result cells, len/.s consistency and operand immutability; "
             "the per-run case split is model-checked against Take/new/Drop.",
             TRUST, "5/C09"),
+    "C05": ("TLA+ parser model (Parse.tla) vs stream terminal (Sgr.tla): TLC model-checks all grammar strings of <=3/4 items; "
+            "TLC trace validation of real from_str/fmtstr results on round trips and grammar strings",
+            "Round trip over the attribute space of C01 with newline/control texts and every grammar string of <=3 (quick) / "
+            "<=4 (thorough) items is parsed by the real code; TLC validates the recorded run lists per character against what "
+            "the stream terminal displays for the input tokens.",
+            TRUST, "5/C05"),
+    "C14": ("TLA+ meaning of formatting specifications (Spelling.tla) and parse_args model (ParseArgs.tla): TLC design check "
+            "over all specifications of <=3 items; TLC trace validation of real calls in every spelling",
+            "Every attribute map in every spelling, orders and nestings of <=3, overrides, the fmtfuncs, removal, "
+            "copy_with_new_str, shared_atts and a catalogue of invalid specifications are executed on the real API and validated "
+            "by TLC against the specification's own name/number tables.",
+            TRUST + "Weakest readings: case variants of valid names may be accepted or rejected with ValueError; 'uniformly "
+            "formatted' = all runs share display attributes; contradictory style (positional + keyword False) is not judged.", "5/C14"),
+    "C17": ("TLA+ ECMA-48 scanner (Scan.tla: MustKeep / OrdinaryCsi / Strip): TLC trace validation of real fmtstr/from_str "
+            "results on all strings <=4/5 over a 13-symbol alphabet, random longer strings and a corpus",
+            "Bounded-exhaustive over an alphabet chosen to produce well-formed, unsupported, truncated and nested escape "
+            "sequences in every position; each recorded result (or exception) is judged by TLC.",
+            TRUST, "5/C17"),
+    "C19": ("TLA+ clauses over recorded terminal strings (FmtJudge.JudgeEq/JudgeRepr): TLC trace validation of all ordered pairs "
+            "of a value pool and of repr round trips",
+            "All ordered pairs of a pool rich in near-collisions (same text, different formatting / run boundaries / explicit "
+            "False / empty runs) and plain strs: ==, !=, reversed ==, hash, set/dict membership recorded with both terminal "
+            "strings and validated by TLC; repr is shape-checked (ast) and evaluated in a namespace of only the fmtfuncs names.",
+            TRUST + "Python's eval/ast for the repr expression.", "5/C19"),
 }
 
 NOT_BUILT = "check not built yet at this commit (planned with the same TLA+ technique, see DESIGN.md section 5)"
